@@ -89,6 +89,9 @@ def c14_case(args):
             return (path, mode, ["traceback: " + (p1.stderr + p2.stderr + p3.stderr)[-300:]])
         std = parse_std(p1.stdout).get(f)
         if std is None:
+            if p1.returncode == 1 and "Error" in (p1.stdout + p1.stderr) and "nexpected token" in (p1.stdout + p1.stderr):
+                # VSG rejected the file (a syntax error fixture): there is nothing to compare, the rejection itself is C19's subject
+                return (path, mode, [])
             return (path, mode, ["standard output has no block for the file"])
         jv = json.load(open(js))["files"][0]["violations"]
         rows = sorted((a, b, c) for a, b, c, s in std["rows"])
@@ -319,7 +322,9 @@ def c15_case(args):
                 continue
             blocks = parse_std(p.stdout)
             seq = [m.group(1).strip() for m in re.finditer(r"^File:\s+(.*)$", p.stdout, re.M)]
-            if [x for x in seq if x != "open_regions.vhd"] != [b for b in batch if b not in ("bad.vhd", "open_regions.vhd")]:
+            # (a sampled corpus file may itself be a syntax-error fixture: VSG rejects it alone as well, it has no block)
+            rejected_alone = {n for n in names if alone[n][0] is None}
+            if [x for x in seq if x != "open_regions.vhd"] != [b for b in batch if b not in ("bad.vhd", "open_regions.vhd") and b not in rejected_alone]:
                 probs.append("-p %d: output order %r differs from command-line order %r" % (jobs, seq, batch))
             jf = {e["file_path"]: e["violations"] for e in json.load(open(js))["files"]}
             for n in names:
@@ -482,8 +487,13 @@ def c15_filelist_case(args):
         picked = {}
         for n in (names[0], names[-1]):
             js = os.path.join(d, "probe.json")
-            cli(["-f", n, "-ap", "--json", js], d)
-            rules = sorted({v["rule"] for v in json.load(open(js))["files"][0]["violations"]})
+            p0 = cli(["-f", n, "-ap", "--json", js], d)
+            if "nexpected token" in p0.stdout + p0.stderr or not os.path.exists(js):
+                return (paths, [])  # a syntax-error fixture among the sampled files: nothing to compare
+            fl = json.load(open(js)).get("files", [])
+            if not fl:
+                return (paths, [])
+            rules = sorted({v["rule"] for v in fl[0].get("violations", [])})
             picked[n] = r.choice(rules) if rules else "entity_004"
         cfg = {"file_list": [{names[0]: {"rule": {picked[names[0]]: {"disable": True}}}}] + names[1:-1] + [{names[-1]: {"rule": {picked[names[-1]]: {"disable": True}}}}]}
         json.dump(cfg, open(os.path.join(d, "cfg.json"), "w"))
